@@ -114,7 +114,12 @@ where
 
         // Rotate any desugared modifiers to the end of the list
         let modifiers = ["inv", "omit_fwd", "omit_inv"];
-        while modifiers.contains(&elements[0]) {
+        // (at most once per element, or a step consisting of nothing but
+        // modifiers would keep us rotating forever)
+        for _ in 0..elements.len() {
+            if !modifiers.contains(&elements[0]) {
+                break;
+            }
             elements.rotate_left(1);
         }
 
